@@ -1,9 +1,9 @@
 (* C05 — A status broadcast is decoded into exactly the device the sender described *)
-Require Import AS.Base.Prelude AS.Base.Hex AS.Base.Dec AS.Base.Utf8 AS.Base.Float AS.Gen.Extracted AS.Model.Messages AS.Model.Bridge AS.Spec.Encoders AS.Proofs.BridgeProofs AS.Proofs.BroadcastProofs AS.Proofs.FloatProofs.
+Require Import AS.Base.Prelude AS.Base.Hex AS.Base.Dec AS.Base.Utf8 AS.Base.Float AS.Gen.Extracted AS.Model.Messages AS.Model.Bridge AS.Spec.Encoders AS.Proofs.BridgeProofs AS.Proofs.BroadcastProofs AS.Proofs.BroadcastProofs2 AS.Proofs.FloatProofs.
 
-(* partial (thermostat family): parse o encode = identity for every field value and every filler byte *)
+(* thermostat family (168 bytes): parse o encode = identity for every field value and every filler byte *)
 Local Open Scope N_scope.
-Theorem C05_breeze_roundtrip_partial (f1 id f2 : bytes) (key : N) (f3 name f4 ip mac f5 : bytes) (temp10 : N) (on : bool)
+Theorem C05_thermostat_broadcast (f1 id f2 : bytes) (key : N) (f3 name f4 ip mac f5 : bytes) (temp10 : N) (on : bool)
     (mode_name mode_value mode_disp : string) (mode_byte target : N) (fan_name fan_value fan_disp : string)
     (fan : N) (swing : bool) (f6 remote f7 : bytes) :
   breeze_wf f1 id f2 f3 f4 ip mac f5 f6 remote f7 name ->
@@ -18,7 +18,7 @@ Theorem C05_breeze_roundtrip_partial (f1 id f2 : bytes) (key : N) (f3 name f4 ip
   Delivered (DThermostat "BREEZE" on (hexlify id) (hexlify [key]) (dotted ip) (mac_of mac) name mode_name
                temp10 target fan_name swing remote).
 Proof. exact (breeze_roundtrip f1 id f2 key f3 name f4 ip mac f5 temp10 on mode_name mode_value mode_disp mode_byte target fan_name fan_value fan_disp fan swing f6 remote f7). Qed.
-Print Assumptions C05_breeze_roundtrip_partial.
+Print Assumptions C05_thermostat_broadcast.
 Local Close Scope N_scope.
 
 (* amps = watts / 220 to one decimal, for every 16-bit wattage (bit-exact float model) *)
@@ -28,3 +28,40 @@ Proof. exact (amps_ok w). Qed.
 Print Assumptions C05_amps.
 Local Close Scope Z_scope.
 
+
+(* water heaters (5 types) and the power plug (165 bytes): every field, OFF normalisation included *)
+Local Open Scope N_scope.
+Theorem C05_type1_broadcast : forall (f1 id f2 : bytes) (key : N) (f3 name ip mac f5 : bytes) (on : bool) (f6 : bytes) (power : N)
+    (f7a f7b : bytes) (remaining : N) (f8 : bytes) (auto : N) (f9 : bytes) (tname tvalue thex : string) (proto : N) (cat : string),
+  In (tname, tvalue, thex, proto, cat) device_types ->
+  length f1 = 16%nat -> length id = 3%nat -> length f2 = 19%nat -> length f3 = 1%nat -> length ip = 4%nat -> length mac = 6%nat ->
+  length f5 = 47%nat -> length f6 = 1%nat -> length f7a = 2%nat -> length f7b = 8%nat -> length f8 = 4%nat -> length f9 = 6%nat ->
+  (length name <= 32)%nat -> utf8_valid name = true -> last name 1 <> 0 ->
+  power < 65536 -> remaining < 86400 -> auto < 86400 ->
+  wf_bytes (concat (type1_segs f1 id f2 key f3 (pad0 32 name) (unhex_str thex) ip mac f5 (if on then 1 else 0) f6 power
+                      (f7a ++ f7b) remaining f8 auto f9)) ->
+  cat = "WATER_HEATER"%string \/ cat = "POWER_PLUG"%string ->
+  parse_datagram false false
+    (concat (type1_segs f1 id f2 key f3 (pad0 32 name) (unhex_str thex) ip mac f5 (if on then 1 else 0) f6 power
+               (f7a ++ f7b) remaining f8 auto f9)) =
+  Delivered
+    (if String.eqb cat "WATER_HEATER"
+     then DWaterHeater tname on (hexlify id) (hexlify [key]) (dotted ip) (mac_of mac) name (if on then power else 0)
+            (if on then fmt_hhmmss remaining else s2l "00:00:00") (fmt_hhmmss auto)
+     else DPowerPlug tname on (hexlify id) (hexlify [key]) (dotted ip) (mac_of mac) name (if on then power else 0)).
+Proof. exact type1_roundtrip. Qed.
+Print Assumptions C05_type1_broadcast.
+
+(* Runner and Runner Mini (159 bytes): MAC at bytes 81-86, position at 135 with byte 136 zero, direction at 137-138 *)
+Theorem C05_runner_broadcast : forall (f1 id f2 : bytes) (key : N) (f3 name f4 ip mac f5 : bytes) (position : N) (f6 : bytes)
+    (tname tvalue thex : string) (proto : N) (dname dvalue ddisp : string),
+  In (tname, tvalue, thex, proto, "SHUTTER"%string) device_types -> In (dname, dvalue, ddisp) shutter_directions ->
+  length f1 = 16%nat -> length id = 3%nat -> length f2 = 19%nat -> length f3 = 1%nat -> length f4 = 1%nat ->
+  length ip = 4%nat -> length mac = 6%nat -> length f5 = 48%nat -> length f6 = 20%nat ->
+  (length name <= 32)%nat -> utf8_valid name = true -> last name 1 <> 0 -> position < 256 ->
+  wf_bytes (concat (runner_segs f1 id f2 key f3 (pad0 32 name) (unhex_str thex) f4 ip mac f5 position (unhex_str dvalue) f6)) ->
+  parse_datagram false false
+    (concat (runner_segs f1 id f2 key f3 (pad0 32 name) (unhex_str thex) f4 ip mac f5 position (unhex_str dvalue) f6)) =
+  Delivered (DShutter tname (hexlify id) (hexlify [key]) (dotted ip) (mac_of mac) name position dname).
+Proof. exact runner_roundtrip. Qed.
+Print Assumptions C05_runner_broadcast.
